@@ -34,6 +34,9 @@ OPS = {
     "__delattr__": ("function", lambda o: delattr(o, "whatever")),     # deleting is a public operation like any other dunder
     "__getitem__": ("function", lambda o: o[0]),
     "__contains__": ("function", lambda o: 3 in o),
+    "_odd__": ("function", lambda o: o._odd__()),               # ONE leading underscore: not public, whatever the ending
+    "odd__": ("function", lambda o: o.odd__()),                 # public, whatever the ending
+    "_odd_prop__": ("property", lambda o: o._odd_prop__),
     "__setattr__": ("function", lambda o: setattr(o, "y", 2)),
     "assign": ("assign", lambda o: setattr(o, "z", 3)),          # attribute assignment without own __setattr__
 }
@@ -67,6 +70,9 @@ SRC = {
     "__delattr__": "def __delattr__(self, k): pass",
     "__getitem__": "def __getitem__(self, k): return 1",
     "__contains__": "def __contains__(self, k): return False",
+    "_odd__": "def _odd__(self): return 1",
+    "odd__": "def odd__(self): return 1",
+    "_odd_prop__": "@property\ndef _odd_prop__(self): return 1",
     "__setattr__": "def __setattr__(self, k, v): object.__setattr__(self, k, v)",
     "assign": "",
 }
